@@ -11,5 +11,5 @@ mkdir -p $W/evidence
 cd /verif
 for c in "$@"; do
   echo "=== $name: $c"
-  ./check $c --tier quick 2>&1 | grep -E "^(VIOLATION|KNOWN-FINDING|OK|FAIL|INCONCLUSIVE|HARNESS)|key:" | cut -c1-220 | head -20
+  ./check $c --tier quick 2>&1 | grep -E "^(VIOLATION|OK|FAIL|INCONCLUSIVE|HARNESS)|key:" | cut -c1-220 | tail -12
 done
